@@ -375,7 +375,7 @@ class ModifierApply(Contract):
     list; an expansion is handled entry by entry and stays ONE expansion holding all results in order"""
     id = "C03.SigmaModifier.apply"
     target = "sigma.modifiers:SigmaModifier.apply"
-    props = ("C03", "C04")
+    props = ("C03", "C04", "C07")
     cases = ("single", "list_result", "bad_type", "expansion2", "expansion_bad")
     assumed = ["type_check and modify of the concrete modifier are abstract"]
 
